@@ -2,6 +2,7 @@
 //! C19 (allocator accounting).  usage: h-sandbox <C18|C19> <master|worker|replay|digests|one> [...]
 
 mod c18;
+mod c19;
 
 fn main() {
     let args: Vec<String> = std::env::args().collect();
@@ -11,6 +12,7 @@ fn main() {
     }
     let code = match args[1].as_str() {
         "C18" => simkit::runner::main_for(&c18::C18, &args[2], &args[3..]),
+        "C19" => simkit::runner::main_for(&c19::C19, &args[2], &args[3..]),
         other => {
             eprintln!("unknown property {}", other);
             2
